@@ -178,3 +178,14 @@ def run(chk, repo):
     ok = len(hs) == 2 and all('KeyError' in unparse(h.type) and any(isinstance(x, ast.Raise) and 'GeneNotFoundError' in unparse(x) for x in h.body) for h in hs)
     chk.ob('C15.b', 'unversioned gene lookup converts KeyError to GeneNotFoundError on both branches', gm.where, ok,
            'get_gene_model_from_unversioned_id lets a KeyError escape', key=gm.qual + '::convert', fn=gm.qual)
+
+    chk.rule('C15.f', 'isoform selection uses the half-open containment start <= pos < end', 1)
+    gt = repo.func('gtf.GenomicAnnotation:GenomicAnnotation.get_transcripts_with_position')
+    chk.uses(gt)
+    tests = [n for n in ast.walk(gt.node) if isinstance(n, ast.Compare) and len(n.ops) == 2]
+    ok = len(tests) == 1 and unparse(tests[0]) == 'start <= pos < end'
+    b = {unparse(n.targets[0]): unparse(n.value) for n in ast.walk(gt.node) if isinstance(n, ast.Assign) and len(n.targets) == 1}
+    ok = ok and b.get('start') == 'tx_model.transcript.location.start' and b.get('end') == 'tx_model.transcript.location.end'
+    chk.ob('C15.f', 'get_transcripts_with_position: start <= pos < end over the transcript location', gt.where, ok,
+           f"containment test {[unparse(t) for t in tests]} with {b}: a breakpoint on the first (or last) genomic base of an isoform silently drops that isoform pair",
+           key=gt.qual + '::half-open', fn=gt.qual)
